@@ -44,11 +44,13 @@ struct LTr<'a> {
     loop_ret: bool,
     /// type expected of the expression being translated (tail of the function body)
     hint: Option<LTy>,
+    /// closure parameters that are references to a value (`|x| … *x …`, `|.., ref x|`): `*x` is the value
+    ref_vars: Vec<String>,
 }
 
 impl<'a> LTr<'a> {
     fn translate(reg: &'a Registry, lreg: &'a LReg, failed: &'a HashSet<String>, lean_name: &str, self_ty: LTy, fsig: &Signature, fblock: &Block, sig: &'a LFnSig) -> R<String> {
-        let mut tr = LTr { reg, lreg, failed, sig, self_ty: self_ty.clone(), tmp: 0, lines: vec![], ind: 1, vars: HashMap::new(), state: vec![], closure: false, deref_var: None, deref_ro: vec![], views: vec![], loop_ret: false, hint: None };
+        let mut tr = LTr { reg, lreg, failed, sig, self_ty: self_ty.clone(), tmp: 0, lines: vec![], ind: 1, vars: HashMap::new(), state: vec![], closure: false, deref_var: None, deref_ro: vec![], views: vec![], loop_ret: false, hint: None, ref_vars: vec![] };
         let mut binders = String::new();
         for (p, bounds) in &sig.tparams {
             write!(binders, " {{{p} : Type}}").unwrap();
@@ -418,6 +420,9 @@ impl<'a> LTr<'a> {
             }
             if let Some(m) = self.reg.struct_fields.get(n) {
                 if let Some(t) = m.get(f) {
+                    if self.reg.str_fields.contains(&(n.clone(), f.to_string())) {
+                        return LTy::Str;
+                    }
                     return lean_to_lty(t);
                 }
             }
@@ -437,6 +442,8 @@ impl<'a> LTr<'a> {
                 let mut p = self.place(&f.base)?;
                 let name = match &f.member {
                     Member::Named(i) => i.to_string(),
+                    // a field of a tuple structure (`lstruct`)
+                    Member::Unnamed(i) if matches!(&p.ty, LTy::Adt(n, _) if self.lreg.structs.contains_key(n)) => format!("_{}", i.index),
                     _ => return Err("tuple field".into()),
                 };
                 p.ty = self.field_ty(&p.ty, &name);
@@ -469,10 +476,18 @@ fn lean_to_lty(t: &str) -> LTy {
         "UInt8" | "UInt16" | "UInt32" | "UInt64" | "Int64" => LTy::Int(t.into()),
         "Bool" => LTy::Bool,
         "Bytes" => LTy::Bytes,
-        _ => match t.strip_prefix("Gen.") {
-            Some(n) if !n.contains(' ') => LTy::Adt(n.into(), vec![]),
-            _ => LTy::Unknown,
-        },
+        _ => {
+            if let Some(inner) = t.strip_prefix("(Rs.Cow ").and_then(|x| x.strip_suffix(')')) {
+                return match lean_to_lty(inner) {
+                    LTy::Unknown => LTy::Unknown,
+                    x => LTy::Cow(Box::new(x)),
+                };
+            }
+            match t.strip_prefix("Gen.") {
+                Some(n) if !n.contains(' ') => LTy::Adt(n.into(), vec![]),
+                _ => LTy::Unknown,
+            }
+        }
     }
 }
 
